@@ -293,7 +293,10 @@ func (s *Sim) checkStatusAnswer(d *gkDeco, name string, code int) {
 // ---------------------------------------------------------------- final
 
 func (s *Sim) finalOracles() {
-	if s.on("C03", "C06", "C07", "C17") && !s.settledFinal && !s.inconclusive && s.ob.stopStep < 0 {
+	// (C17 speaks of files being sent and delivered; whether the sender also
+	// gets to record the confirmation is C03's and C02's business)
+	if s.on("C17") && !strings.HasPrefix(s.unsettledWhy, "not arrived") {
+	} else if s.on("C03", "C06", "C07", "C17") && !s.settledFinal && !s.inconclusive && s.ob.stopStep < 0 {
 		s.violate(s.sc.Prop, "not-delivered-within-bound", "after %s without faults the system is not settled: %s", s.sc.Settle, s.unsettledWhy)
 	}
 	if s.on("C05", "C06", "C07") {
